@@ -243,6 +243,26 @@ words = st.one_of(st.sampled_from(["solo", "soloend", "ENABLE_CHART_DYNAMICS", "
                            max_size=3).map("".join))
 
 
+# tick offsets around the widths of machine integers and of the float mantissa: nothing in the format
+# bounds a tick, so a section's meaning must survive being moved up by any of them
+BIG_OFFSETS_32 = [2 ** 31 - 40, 2 ** 32 - 40, 2 ** 32, 2 ** 33 + 7]
+BIG_OFFSETS_64 = [2 ** 53 - 40, 2 ** 63 - 40, 2 ** 64 - 40, 2 ** 64, 10 ** 20]
+
+
+def lift_items(draw, items, res: int, one_in: int = 8, allow64: bool = True):
+    """With probability 1/one_in: (items moved up by a big offset, single fastest tempo, resolution big
+    enough for every time to stay inside the timedelta range); else None."""
+    if draw(st.integers(0, one_in - 1)) != 0:
+        return None
+    offs = list(BIG_OFFSETS_32)
+    if allow64:
+        offs += BIG_OFFSETS_64
+    off = draw(st.sampled_from(offs))
+    if off > 2 ** 34 and res < 960:
+        res = 960
+    return [[it[0] + off] + list(it[1:]) for it in items], [[0, 10 ** 9]], res
+
+
 def merge_track_items(notes, phrases, tevents, sp_first: bool = False) -> list[list]:
     """File order: by tick; within a tick N lines, then S, then E (Moonscraper)."""
     keyed = []
